@@ -79,6 +79,20 @@ func mapStates(vw *ygo.View, a *ref.Automaton) ([]int, bool) {
 	return m, true
 }
 
+// mapStatesManyToOne maps every state of yaccgo to the reference state with the same item set, also when
+// several states of yaccgo hold the same set; false when some item set is not in the canonical collection.
+func mapStatesManyToOne(vw *ygo.View, a *ref.Automaton) ([]int, bool) {
+	m := make([]int, vw.NStates)
+	for i := 0; i < vw.NStates; i++ {
+		ri, ok := a.Index[ref.ItemsKey(vw.StateItems(i))]
+		if !ok {
+			return nil, false
+		}
+		m[i] = ri
+	}
+	return m, true
+}
+
 func setNames(g *ref.Grammar, s ref.Set) []string {
 	var out []string
 	for _, m := range s.Members() {
@@ -100,6 +114,14 @@ func c03Eval(w *Worker, c *GCase) {
 	}
 	a := g.LR0()
 	y2r, ok := mapStates(vw, a)
+	if !ok {
+		// yaccgo may hold one item set in several states (C09's business); every copy must still carry the
+		// LALR(1) lookaheads of that item set
+		if m, all := mapStatesManyToOne(vw, a); all {
+			y2r, ok = m, true
+			w.Count("item_sets_held_by_several_states_judged_per_copy", 1)
+		}
+	}
 	if !ok {
 		w.Count("skipped_lr0_mismatch", 1)
 		return
